@@ -14,7 +14,10 @@
                       are exactly member[L] in order, each with the call's argument, the
                       combiner invocations form a left fold from the initial value and the
                       call returns its result; the operation ran exactly the unregister
-                      callbacks it must (the dying connection's, once - unregister flavour).
+                      callbacks it must (the dying connection's, once - unregister flavour);
+                      and what that unregister callback itself saw of every signal (empty(), one
+                      call) while its connection was dying: the dying connection is a member of
+                      no signal any more (DyingReasons of Signal.tla).
    An event the specification cannot explain is recorded in `bad`; the rest of that
    history is not judged (the next reset line starts a fresh history), so one defect gives
    one rejection per history: the first observable symptom. *)
@@ -25,7 +28,9 @@ tvars == <<st, hist, sx, ever, l, bad, fl, skip, ai, taint>>
 
 T == ndJsonDeserialize(IOEnv.TRACE)
 
-NoFl == [list |-> TRUE, res |-> FALSE, unr |-> FALSE]
+(* core: the history was driven by a CORE unit of the harness (compiled without the observed-only
+   parts because the full harness does not compile against the tree): no const iteration recorded *)
+NoFl == [list |-> TRUE, res |-> FALSE, unr |-> FALSE, core |-> FALSE]
 
 OpOf(ev) == [op |-> ev.op, l |-> ev.l, l2 |-> ev.l2, x |-> ev.x, x2 |-> ev.x2, b |-> ev.b, mode |-> ev.mode]
 
@@ -71,7 +76,13 @@ InScopeReason(w, isl) ==
                     "forward-walk-leaves-the-list", "backward-walk-leaves-the-list", "empty"}
   \/ ~isl /\ w \in {"called-extra", "called-missing", "called-twice", "called-order",
                      "call-does-not-end", "left-fold",
-                     "unregister-not-run", "unregister-run-twice", "unregister-of-other-connection"}
+                     "unregister-not-run", "unregister-run-twice", "unregister-of-other-connection",
+                     \* "calling a signal invokes exactly the callbacks whose connection object is still
+                     \* alive ... runs a connection's unregister callback exactly once WHEN that connection
+                     \* dies": a call made from inside the unregister callback (the connection is being
+                     \* destroyed, it is not alive).  "dying-empty" (signal::empty() there) stays observed only.
+                     "dying-called-extra", "dying-called-missing", "dying-called-twice", "dying-called-order",
+                     "dying-call-does-not-end", "dying-left-fold"}
 
 (* ai = [it |-> the abstract iterator the driver holds, fresh |-> no other operation since it was
    obtained by begin()/end() (only then is it judged: the documentation does not say that an
@@ -90,7 +101,7 @@ ListReasons(m, ev) ==
   UNION {
     LET r == ev.lists[L] IN
       SeqReasons("forward", r.fwd, Forward(m, L))
-      \cup SeqReasons("forward-const", r.cfwd, Forward(m, L))
+      \cup (IF fl.core THEN {} ELSE SeqReasons("forward-const", r.cfwd, Forward(m, L)))
       \cup SeqReasons("backward", r.bwd, Backward(m, L))
       \cup (IF r.fok THEN {} ELSE {"forward-walk-leaves-the-list"})
       \cup (IF r.cok THEN {} ELSE {"forward-const-walk-leaves-the-list"})
@@ -109,6 +120,16 @@ SignalReasons(m, x, a, ev) ==
 (* the driver calls exactly the callable signals *)
 CallsAgree(m, x, ev) ==
   \A L \in Lists : m.llive[L] => ev.lists[L].call.done = CallPre(m, x, L, fl.res)
+(* ... also from inside an unregister callback, and it records one view per run of such a callback
+   (the liveness of signal slots and the combiner flags do not change in an operation in which a
+   connection dies) *)
+ViewsAgree(m, x, ev) ==
+  /\ Len(ev.dying) = Len(ev.unreg)
+  /\ \A i \in DOMAIN ev.dying :
+       /\ ev.dying[i].c = ev.unreg[i]
+       /\ Len(ev.dying[i].sigs) = NL
+       /\ \A L \in Lists : /\ ev.dying[i].sigs[L].live = m.llive[L]
+                            /\ m.llive[L] => ev.dying[i].sigs[L].call.done = CallPre(m, x, L, fl.res)
 
 TInit ==
   /\ st = EmptyM
@@ -128,7 +149,7 @@ TReset ==
   /\ T[l].e = "reset"
   /\ st' = EmptyM
   /\ sx' = EmptyX
-  /\ fl' = [list |-> T[l].list, res |-> T[l].res, unr |-> T[l].unr]
+  /\ fl' = [list |-> T[l].list, res |-> T[l].res, unr |-> T[l].unr, core |-> T[l].core]
   /\ ai' = NoAi
   /\ taint' = FALSE
   \* an "observed only" history (behaviour the documentation is silent about, e.g. callbacks that
@@ -183,9 +204,10 @@ TOp ==
                                             THEN {"iterator-step-refused"} ELSE {})
                      ELSE IF ~OwnersAgree(x, ev) THEN {"HARNESS-OWNERS"}
                      ELSE IF ~CallsAgree(m, x, ev) THEN {"HARNESS-CALLS"}
-                     ELSE SignalReasons(m, sx, a, ev)
+                     ELSE IF UnregReasons(sx, a, fl.unr, ev.unreg) = {} /\ ~ViewsAgree(m, x, ev) THEN {"HARNESS-VIEWS"}
+                     ELSE SignalReasons(m, sx, a, ev) \cup DyingReasons(st, sx, a, fl.unr, fl.res, ev.dying)
               t2 == taint \/ ~InScopeOp(a.op)
-              harness == \E w \in why : w \in {"HARNESS-SLOTS", "HARNESS-OWNERS", "HARNESS-CALLS"}
+              harness == \E w \in why : w \in {"HARNESS-SLOTS", "HARNESS-OWNERS", "HARNESS-CALLS", "HARNESS-VIEWS"}
               inwhy == {w \in why : InScopeReason(w, isl)}
               scope == IF harness \/ (~t2 /\ inwhy # {}) THEN "in" ELSE "observed"
           IN /\ st' = m
